@@ -28,13 +28,14 @@ Definition InvG (s : tcore) (stc sts : sstate) (ccc scc : bool) (n : nat) : Prop
   ts_can_decrypt s = true /\ (exists v, ts_version s = VSet v /\ v <> TLS13) /\ ts_client_cc s = ccc /\ ts_server_cc s = scc /\
   exists d, ts_decryptor s = Some d /\ Q n d stc sts.
 
-Inductive evG := GCcs (srv : bool) | GEnc (srv : bool) (rt : Z) (x : X).
-Definition evG_ok (e : evG) : Prop := match e with GCcs _ => True | GEnc _ rt x => (rt = 22 \/ rt = 23) /\ xok x end.
+Inductive evG := GCcs (srv : bool) | GEnc (srv : bool) (rt : Z) (x : X) | GPlain (srv : bool) (r : tls_record).
+Definition evG_ok (e : evG) : Prop := match e with GCcs _ => True | GEnc _ rt x => (rt = 22 \/ rt = 23) /\ xok x | GPlain _ r => r_type r = 22 end.
 Fixpoint orderedG (ccc scc : bool) (evs : list evG) : Prop :=
   match evs with
   | [] => True
   | GCcs srv :: t => orderedG (if srv then ccc else true) (if srv then true else scc) t
   | GEnc srv _ _ :: t => (if srv then scc else ccc) = true /\ orderedG ccc scc t
+  | GPlain srv _ :: t => (if srv then scc else ccc) = false /\ (if srv then ccc else scc) = true /\ orderedG ccc scc t
   end.
 Fixpoint playG (stc sts : sstate) (evs : list evG) : result (sstate * sstate * list (bool * tls_record)) :=
   match evs with
@@ -44,6 +45,7 @@ Fixpoint playG (stc sts : sstate) (evs : list evG) : result (sstate * sstate * l
       do z <- send srv rt (if srv then sts else stc) x;
       do y <- playG (if srv then stc else fst z) (if srv then fst z else sts) t;
       Ok (fst (fst y), snd (fst y), (srv, snd z) :: snd y)
+  | GPlain srv r :: t => do y <- playG stc sts t; Ok (fst (fst y), snd (fst y), (srv, r) :: snd y)
   end.
 Definition appG (e : evG) : list (bool * option bytes * bool) :=
   match e with GEnc srv rt x => if rt =? 23 then [(srv, Some (content x), false)] else [] | _ => [] end.
@@ -91,7 +93,7 @@ Theorem sessionG evs : forall s stc sts ccc scc stc' sts' rs,
 Proof.
   induction evs as [|e t IH]; intros s stc sts ccc scc stc' sts' rs HI Hok Hord H; cbn [playG] in H.
   - injection H as <- <- <-. exists s, [], ccc, scc. split; [reflexivity|split; [reflexivity|exact HI]].
-  - inversion Hok as [|? ? Hx Ht]; subst. destruct e as [srv|srv rt x].
+  - inversion Hok as [|? ? Hx Ht]; subst. destruct e as [srv|srv rt x|srv r].
     + destruct (playG stc sts t) as [[[c2 s2] rs2]|] eqn:E2; [|discriminate]. cbn [bind fst snd] in H. injection H as <- <- <-.
       cbn [orderedG] in Hord. cbn [length] in HI.
       assert (HIw : InvG s stc sts ccc scc (length t)).
@@ -107,6 +109,15 @@ Proof.
       destruct (IH s1 _ _ _ _ _ _ _ HI1 Ht Hord E2) as (s' & out & ccc' & scc' & Hr & Hm & HI').
       exists s', (o1 ++ out), ccc', scc'. split; [cbn [session_run]; rewrite Hh; cbn [bind fst snd]; rewrite Hr; reflexivity|].
       split; [|exact HI']. unfold dataG in *. rewrite filter_app, map_app, Hd1, Hm. reflexivity.
+    + destruct (playG stc sts t) as [[[c2 s2] rs2]|] eqn:E2; [|discriminate]. cbn [bind fst snd] in H. injection H as <- <- <-.
+      cbn [orderedG] in Hord. destruct Hord as (Hown & Hpeer & Hord). cbn [length] in HI.
+      assert (HIw : InvG s stc sts ccc scc (length t)).
+      { destruct HI as (i1 & i2 & i3 & i4 & d & i5 & i6). unfold InvG. split; [exact i1|]. split; [exact i2|]. split; [exact i3|]. split; [exact i4|]. exists d. split; [exact i5|apply Qweak; exact i6]. }
+      assert (Hh : handle_tls_record C tbl parts keylog s r srv = Ok (s, [meta_entry r srv])).
+      { destruct HI as (_ & _ & i3 & i4 & _). apply plain_after_peer_ccs; [exact Hx|rewrite i3, i4; exact Hown|rewrite i3, i4; exact Hpeer]. }
+      destruct (IH s _ _ _ _ _ _ _ HIw Ht Hord E2) as (s' & out & ccc' & scc' & Hr & Hm & HI').
+      exists s', ([meta_entry r srv] ++ out), ccc', scc'. split; [cbn [session_run]; rewrite Hh; cbn [bind fst snd]; rewrite Hr; reflexivity|].
+      split; [|exact HI']. unfold dataG in *. rewrite filter_app, map_app, Hm. reflexivity.
 Qed.
 End Generic.
 
